@@ -156,6 +156,7 @@ def run(prog: Program, rep: Report, tier: str) -> None:
     from ..share import share
 
     share(prog, rep, "C17", ("R17.1",), "R15.4", "the depth array is read at the particle's own cell, inside the array", 1, only=lambda o: "Grid.depth" in o.func)
+    share(prog, rep, "C05", ("R05.4",), "R15.6", "storing a state variable binds a fresh array and never writes into the old one: the positions the tracker read at the start of the step are still the start positions when the bottom depth is sampled after the new positions were stored (R15.2 relies on it)", 1, only=lambda o: "item assignment" in o.construct)
 
 
 
